@@ -59,7 +59,11 @@ impl<T: TokenStream> ParserBase<T> {
     }
 
     #[inline]
-    pub(crate) fn finish(self) -> (GreenNode, Vec<SyntaxError>) {
+    pub(crate) fn finish(mut self) -> (GreenNode, Vec<SyntaxError>) {
+        // an unterminated conditional is only known at the end of the input
+        if let Some(message) = self.token_stream.take_pending_error() {
+            self.error(message);
+        }
         (self.builder.finish(), self.errors)
     }
 
